@@ -144,7 +144,9 @@ def run(tape, ctx):
                 cost = 1.0 - vn @ rn.T
             else:
                 cost = np.sqrt(((vec[:, None, :] - ref[None, :, :]) ** 2).sum(axis=2))
-            if np.any(np.all(np.exp(-cost) == 0.0, axis=1)):
+            # (near-)underflow: a support point whose best kernel value exp(-cost) to any reference vector is below
+            # 1e-20 (cost > 46): the scaling vectors overflow within a few iterations and the shared break fires
+            if np.any(np.max(np.exp(-cost), axis=1) < 1e-20):
                 qual = "|sinkhorn-kernel-underflow"
                 probes.hit("sinkhorn-kernel-underflow-case")
         except Exception:
